@@ -28,7 +28,7 @@ EXPLANATION = ('Shape rules decided by symbolic execution of the link-manipulati
                'on the link fields, slot-count accounting, single-traversal index assignment ordered between the substitution and '
                'positioning runs, loader rejection of list mutators after indexing, and the real-glyph clamp.  Position '
                'finiteness and data-dependent glyph ids are not decided.')
-FLOORS = {'LINKSYM': 6, 'NEWSLOTCLEAN': 3, 'MUTATORS': 4, 'GROWTH': 9, 'INDEX': 4, 'NOMUTPOS': 4, 'GIDCLAMP': 2}
+FLOORS = {'LINKSYM': 6, 'NEWSLOTCLEAN': 3, 'MUTATORS': 4, 'GROWTH': 9, 'INDEX': 5, 'NOMUTPOS': 4, 'GIDCLAMP': 2}
 
 STREAM_MUTATORS = {
     'graphite2::Segment::appendSlot': 'appends one slot per character',
@@ -334,7 +334,9 @@ def index(run, fx):
                 break
     if not ok:
         run.violated('INDEX', 'associateChars numbering', ac.where(), 'associateChars no longer numbers the slots 0,1,2,.. on one traversal of the stream: %s' % why)
-    ws = sorted(set(fn.q for fn, e in callers_of(fx, 'graphite2::Slot::index') if e.get('args')))
+    # PUT_COPY may only put the slot's OWN index back after its whole-slot copy (putcopy_index checks exactly that): not a numbering site
+    restorers = {'(anonymous namespace)::put_copy', '(anonymous namespace)::direct_run'}
+    ws = sorted(set(fn.q for fn, e in callers_of(fx, 'graphite2::Slot::index') if e.get('args')) - restorers)
     fws = sorted(set(fn.q for fn, e, k in field_writes(fx).get('graphite2::Slot::m_index', [])) - {'graphite2::Slot::Slot', 'graphite2::Slot::index'})
     if ws == ['graphite2::Segment::associateChars'] and not fws:
         run.held('INDEX', 'writers of the slot index', '', 'only associateChars', False)
@@ -417,6 +419,46 @@ def nomutpos(run, vm):
         run.held('NOMUTPOS', 'pass index -> type', sg.where(), 'i >= m_pPass => POSITIONING, i >= m_jPass => JUSTIFICATION')
     else:
         run.violated('NOMUTPOS', 'pass index -> type', sg.where(), 'Silf::readGraphite no longer types passes [m_pPass, ...) as POSITIONING/JUSTIFICATION: %s' % got)
+
+
+def putcopy_index(run, vm):
+    """INDEX: PUT_COPY is not among the opcodes the loader keeps out of positioning and justification passes (only INSERT and DELETE are),
+    and it overwrites the whole live slot -- m_index included -- with another slot's bytes.  After Segment::associateChars has numbered the
+    slots that would give two slots the same gr_slot_index.  The slot's own index, read before the copy, must be put back on every
+    path after it (as its stream links and user-attribute block are)."""
+    from .util import every_path_calls
+    pc = vm.handlers['put_copy']
+    mc = [e for e in calls_in(pc, 'memcpy') if 'graphite2::Slot *' in (pc.strip(e['args'][0]).get('t') or '') or 'sizeof' in pc.render(pc.N(e['args'][2])) or pc.strip_all_casts(e['args'][2]).get('v', 0) > 40]
+    slotcpy = [e for e in mc if pc.render(pc.strip_all_casts(e['args'][0])) in ('reg.is',)]
+    inst = 'PUT_COPY keeps the slot\'s own index'
+    if not slotcpy:
+        run.broken('INDEX', inst, 'put_copy: whole-slot memcpy into the live slot not found', pc.where())
+        return
+    saved = set()
+    for _, e in pc.elements():
+        if e['k'] == 'DeclStmt':
+            for d in e['decls']:
+                if d.get('init') is None:
+                    continue
+                x = pc.strip_all_casts(d['init'])
+                if x['k'] == 'CXXMemberCallExpr' and x.get('fq') == 'graphite2::Slot::index' and not x.get('args') and pc.render(pc.deref(x['obj']), resolve=True) == 'reg.is' \
+                        and pc.block_of[e['i']] in pc.dominators()[pc.block_of[slotcpy[0]['i']]]:
+                    saved.add(d['vid'])
+
+    def restores(e):
+        if not ((e.get('fq') or '') == 'graphite2::Slot::index' and e.get('args')):
+            return False
+        if pc.render(pc.deref(e['obj']), resolve=True) != 'reg.is':
+            return False
+        a = pc.strip_all_casts(e['args'][0])
+        return a['k'] == 'DeclRefExpr' and a.get('vid') in saved
+    r = every_path_calls(pc, slotcpy[0], restores) if saved else False
+    if r is True:
+        run.held('INDEX', inst, pc.loc(slotcpy[0]), 'index saved before the whole-slot copy and restored on every path after it')
+    else:
+        run.violated('INDEX', inst, pc.loc(slotcpy[0]), 'PUT_COPY copies another slot\'s m_index into the live slot and does not put the slot\'s own index back%s: a font whose positioning or '
+                     'justification rule uses PUT_COPY with a non-zero slot reference (the loader accepts it) leaves two slots with the same gr_slot_index, so the indices are '
+                     'no longer a permutation of 0..n-1' % ('' if not saved else ' on every path'))
 
 
 def classbound(run, fx):
@@ -509,6 +551,7 @@ def run(run):
     mutators(run, fx)
     c02.growth(run, vm)
     index(run, fx)
+    putcopy_index(run, vm)
     from . import width
     width.no_narrow(run, fx, 'INDEX', [('Slot::index', 'graphite2::Slot::index'), 'graphite2::Segment::m_numGlyphs'])
     nomutpos(run, vm)
